@@ -660,6 +660,12 @@ fn mode_c16(s: &mut Session, re: &Regex, p: &str, t: &str) {
                         fails.push(format!("get({}) is Some", len + k));
                     }
                 }
+                // indices whose slot number does not fit a usize are beyond every group too (F22)
+                for i in [1usize << 62, (1usize << 63) - 1, 1usize << 63, (1usize << 63) + 1, (1usize << 63) + len.saturating_sub(1), usize::MAX - 1, usize::MAX] {
+                    if c.get(i).is_some() {
+                        fails.push(format!("get({}) is Some", i));
+                    }
+                }
                 for (i, n) in names.iter().enumerate() {
                     if let Some(n) = n {
                         let a = c.name(n).map(|m| (m.start(), m.end()));
